@@ -70,6 +70,8 @@ def run(ck):
     eqs = gen_corpus("EQS", module="gen/Gen_Bool", deps=DEPS)
     nqf, nqb, neq = (1500, 2500, 1500) if quick else (len(qf), len(qb), len(eqs))
     qf_s = ck.rng.sample(qf, min(nqf, len(qf)))
+    pol = gen_corpus("POL", module="gen/Gen_Bool", deps=DEPS)      # negated compounds needed in both polarities: all of them
+    qf_s = pol + [j for j in qf_s if j not in pol]
     qb_s = ck.rng.sample(qb, min(nqb, len(qb)))
     eq_s = ck.rng.sample(eqs, min(neq, len(eqs)))
     evs = []
